@@ -100,6 +100,21 @@ func genUntidyModel(r *Rand) *c20Model {
 				trait("union")
 			}
 		}
+		aliasCycle := false
+		if r.Chance(1, 3) {
+			// aliases that name each other (in this application, or through the next one) or themselves
+			other := names[(i+1)%n]
+			switch r.Intn(3) {
+			case 0:
+				b.WriteString("    !alias A1:\n        A2\n    !alias A2:\n        A1\n")
+			case 1:
+				b.WriteString("    !alias A1:\n        A1\n")
+			default:
+				fmt.Fprintf(&b, "    !alias A1:\n        %s.A1\n", other)
+			}
+			aliasCycle = true
+			trait("alias-cycle")
+		}
 		if r.Chance(1, 2) {
 			b.WriteString("    !table T1:\n        id <: int [~pk, ~autoinc]\n        name <: string(40)\n")
 			switch r.Intn(5) {
@@ -124,7 +139,11 @@ func genUntidyModel(r *Rand) *c20Model {
 				hid = " [~hidden]"
 				trait("hidden-endpoint")
 			}
-			fmt.Fprintf(&b, "    %s%s:\n", ep, hid)
+			par := ""
+			if aliasCycle && r.Bool() {
+				par = fmt.Sprintf(" (p <: %s.A1)", a)
+			}
+			fmt.Fprintf(&b, "    %s%s%s:\n", ep, par, hid)
 			k := 1 + r.Intn(4)
 			for j := 0; j < k; j++ {
 				switch r.Intn(7) {
@@ -138,7 +157,7 @@ func genUntidyModel(r *Rand) *c20Model {
 					fmt.Fprintf(&b, "        . <- %s\n", ep)
 					trait("self-call")
 				case 3:
-					fmt.Fprintf(&b, "        return ok <: %s\n", Pick(r, []string{"Rec", "string", "Missing", "sequence of Rec", "Nowhere.T", "T1"}))
+					fmt.Fprintf(&b, "        return ok <: %s\n", Pick(r, []string{"Rec", "string", "Missing", "sequence of Rec", "Nowhere.T", "T1", "A1", a + ".A1", names[r.Intn(n)] + ".A1"}))
 				case 4:
 					ta, te := target()
 					fmt.Fprintf(&b, "        one of:\n            a:\n                %s <- %s\n            b:\n                ...\n", ta, te)
